@@ -69,6 +69,22 @@ CHECKS = {
               'decision are compared with the reference cash account after every operation.'),
         note='trusts vf/models.AccountSpot; resting sells are reduce-only as the strategy layer submits them',
         ref='DESIGN.md section 3 C04'),
+    'C05': dict(
+        technique='runtime assertion monitor on Order.execute/cancel with state snapshots + fault injection of duplicate calls',
+        text=('Wrappers around the real Order.execute/cancel record every status transition and, for calls on already-final '
+              'orders (made by the simulator itself or injected by the monitor at quiescent points, incl. cancel-all with queued '
+              'market orders), compare a full state snapshot before/after; the active-order view and the one-trade-per-fill rule '
+              'are checked at every quiescent point of direct-drive histories and backtest sessions.'),
+        note='snapshot covers balances, margin tables, committed sums, positions, available margin, trade log, liquidation counter',
+        ref='DESIGN.md section 3 C05'),
+    'C06': dict(
+        technique='offline trace checker: reference cycle tracker over recorded fills vs observed hooks and closed-trade records',
+        text=('Fills of real sessions and of direct-drive histories with the real strategy attached drive a reference cycle tracker; '
+              'each fill must be followed by exactly the hook its effect implies with the implied position size, each completed '
+              'cycle by exactly one closed trade matching the cycle\'s fills, and in futures the closed trades\' net PnL must equal '
+              'the wallet change (and net_profit the balance change).'),
+        note='two genuine defects are recorded as known findings (oversize reduce-only close, flip), keyed by mechanism',
+        ref='DESIGN.md section 3 C06'),
 }
 
 NOT_YET = 'check under construction in this round (see DESIGN.md section 3); not claimed until it runs clean on the unchanged tree'
